@@ -136,6 +136,13 @@ def programs(rng, tier):
             ents.append(dup("DUP_B"))
             ents.append({"k": "menu", "title": "gated %s" % target, "dep": S("IDF_TARGET_CHIPB"), "visif": Y, "children": [mk_config("INMENU", "bool", prompt=Y, defaults=[{"v": ["y"], "c": Y}]), dup("DUP_A"), dup("DUP_B")]})
             ents.append({"k": "menu", "title": "open %s" % target, "dep": Y, "visif": Y, "children": [dup("DUP_A")]})
+            # a menu inside a menu whose entries are all hidden for one target (the menu itself is not gated): what
+            # the outer menu lists as its contents must still be defined
+            ents.append({"k": "menu", "title": "outer %s" % target, "dep": Y, "visif": Y, "children": [
+                dup("OUTV"),
+                {"k": "menu", "title": "inner for b only", "dep": Y, "visif": Y, "children": [mk_config("INB", "bool", prompt=Y, dep=S("IDF_TARGET_CHIPB"), defaults=[{"v": ["y"], "c": Y}])]},
+                {"k": "menu", "title": "inner for a only", "dep": Y, "visif": Y, "children": [mk_config("INA", "bool", prompt=S("IDF_TARGET_CHIPA"), defaults=[{"v": ["y"], "c": Y}])]},
+            ]})
             order = []
             for e in ktree.walk(ents):
                 if e["k"] == "config" and ["s", e["name"]] not in order:
